@@ -298,27 +298,150 @@ func matchAuthChecked(p *MPath) bool {
 	return false
 }
 
-// binaryIOCalls lists encoding/binary.Read or .Write calls of fn in dominance order;
-// ok=false if they are not totally ordered by dominance (not straight-line).
-func binaryIOCalls(fn *ssa.Function, names ...string) (calls []*ssa.Call, ok bool) {
+// ioOp: one field read/write on a stream, as seen from the function analysed: a direct
+// encoding/binary.Read/Write or bytes.Buffer write, or one made on its behalf by a first-party
+// helper (putUint16(buf, v); writeFields(buf, a, b, c)) with the operands translated to the caller.
+type ioOp struct {
+	call   *ssa.Call // the call in the analysed function (the helper call for expanded ops)
+	name   string    // callee of the primitive operation
+	stream ssa.Value // the writer/reader (binary.*: argument 0; Buffer methods: the receiver)
+	order  ssa.Value // byte order argument of binary.*, nil otherwise
+	val    ssa.Value // the operand: binary.* argument 2 as given (interface conversion included when made at this site), Buffer.Write argument 0
+}
+
+// binaryIOCalls lists the field operations of fn in dominance order; ok=false when they are not
+// straight-line (a branch or loop around one of them).
+func binaryIOCalls(fn *ssa.Function, names ...string) (ops []ioOp, ok bool) {
+	prim := func(call *ssa.Call) (ioOp, bool) {
+		if !isCallIn(call, names) {
+			return ioOp{}, false
+		}
+		n := calleeName(call)
+		if strings.HasPrefix(n, "encoding/binary.") {
+			return ioOp{call, n, arg(call, 0), arg(call, 1), arg(call, 2)}, true
+		}
+		return ioOp{call, n, recvOf(call), nil, arg(call, 0)}, true
+	}
+	var sites []*ssa.Call
 	for _, b := range fn.DomPreorder() {
 		for _, in := range b.Instrs {
-			if call, isCall := in.(*ssa.Call); isCall && isCall && isCallIn(call, names) {
-				calls = append(calls, call)
+			call, isCall := in.(*ssa.Call)
+			if !isCall {
+				continue
+			}
+			if op, isPrim := prim(call); isPrim {
+				ops = append(ops, op)
+				sites = append(sites, call)
+				continue
+			}
+			exp, isHelper := expandIOHelper(call, prim)
+			if isHelper {
+				ops = append(ops, exp...)
+				sites = append(sites, call)
 			}
 		}
 	}
-	for i := 0; i+1 < len(calls); i++ {
-		if !dominatesInstr(calls[i], calls[i+1]) {
-			return calls, false
+	for i := 0; i+1 < len(sites); i++ {
+		if !dominatesInstr(sites[i], sites[i+1]) {
+			return ops, false
 		}
 	}
-	for _, cl := range calls {
+	for _, cl := range sites {
 		if inCycle(cl.Block()) {
-			return calls, false
+			return ops, false
 		}
 	}
-	return calls, true
+	return ops, true
+}
+
+// expandIOHelper: call is to a first-party helper whose only field operation is one primitive on
+// its stream parameter — of one of its parameters (put/get helpers), or of every element of its
+// variadic parameter in order (a range loop with no other exit).
+func expandIOHelper(call *ssa.Call, prim func(*ssa.Call) (ioOp, bool)) ([]ioOp, bool) {
+	h := call.Call.StaticCallee()
+	if h == nil || !IsFirstParty(h) || h.Blocks == nil || len(h.AnonFuncs) > 0 {
+		return nil, false
+	}
+	var inner []ioOp
+	for _, ci := range callsIn(h) {
+		c2, ok := ci.(*ssa.Call)
+		if !ok {
+			if _, isDefer := ci.(*ssa.Defer); isDefer {
+				return nil, false
+			}
+			continue
+		}
+		if op, isPrim := prim(c2); isPrim {
+			inner = append(inner, op)
+		} else if cal := c2.Call.StaticCallee(); cal != nil && IsFirstParty(cal) {
+			return nil, false // nested helpers are not followed
+		}
+	}
+	if len(inner) != 1 {
+		return nil, false
+	}
+	op := inner[0]
+	paramIdx := func(v ssa.Value) int {
+		p, ok := strip(v).(*ssa.Parameter)
+		if !ok {
+			return -1
+		}
+		for i, q := range h.Params {
+			if q == p {
+				return i
+			}
+		}
+		return -1
+	}
+	si := paramIdx(op.stream)
+	if si < 0 || si >= len(call.Call.Args) {
+		return nil, false
+	}
+	order := op.order
+	if order != nil {
+		if oi := paramIdx(order); oi >= 0 && oi < len(call.Call.Args) {
+			order = call.Call.Args[oi]
+		}
+	}
+	// operand: a parameter of the helper ...
+	operand := op.val
+	if mi, ok := operand.(*ssa.MakeInterface); ok {
+		operand = mi.X
+	}
+	if vi := paramIdx(operand); vi >= 0 && vi < len(call.Call.Args) && !inCycle(op.call.Block()) {
+		// every path through the helper performs the operation
+		for _, r := range returnsOf(h) {
+			if reachFromWithoutMarkerAvoiding(h.Blocks[0], r, func(in ssa.Instruction) bool { return in == ssa.Instruction(op.call) }, nil) {
+				return nil, false
+			}
+		}
+		return []ioOp{{call, op.name, call.Call.Args[si], order, call.Call.Args[vi]}}, true
+	}
+	// ... or each element of the variadic parameter, in order
+	if u, ok := strip(op.val).(*ssa.UnOp); ok && u.Op == token.MUL {
+		if ia, ok := u.X.(*ssa.IndexAddr); ok {
+			if vi := paramIdx(ia.X); vi >= 0 && vi == len(h.Params)-1 && h.Signature.Variadic() && vi < len(call.Call.Args) {
+				add, isAdd := ia.Index.(*ssa.BinOp)
+				if !isAdd || add.Op != token.ADD {
+					return nil, false
+				}
+				phi, isPhi := add.X.(*ssa.Phi)
+				if !isPhi || phi.Comment != "rangeindex" || !runsForEveryElement(op.call, phi.Block()) {
+					return nil, false
+				}
+				elems, isLit := sliceLitElems(call.Call.Args[vi])
+				if !isLit {
+					return nil, false
+				}
+				var out []ioOp
+				for _, e := range elems {
+					out = append(out, ioOp{call, op.name, call.Call.Args[si], order, e})
+				}
+				return out, true
+			}
+		}
+	}
+	return nil, false
 }
 
 func isCallIn(call *ssa.Call, names []string) bool {
@@ -357,15 +480,16 @@ func c17RequestLayout(c *Ctx) {
 		c.Missing("return of handshakeRequest")
 	}
 	var reader ssa.Value
-	for i, call := range calls {
+	for i, op := range calls {
+		call := op.call
 		k := fmt.Sprintf("%s read#%d", key, i)
-		dst, isAlloc := strip(arg(call, 2)).(*ssa.Alloc)
+		dst, isAlloc := strip(op.val).(*ssa.Alloc)
 		if !isAlloc {
 			c.Bad(rule, k, call.Pos(), "destination is not a local")
 			continue
 		}
 		bt, _ := dst.Type().Underlying().(*types.Pointer).Elem().Underlying().(*types.Basic)
-		good := bt != nil && bt.Kind() == wantT[i] && isLittleEndian(arg(call, 1))
+		good := bt != nil && bt.Kind() == wantT[i] && op.order != nil && isLittleEndian(op.order)
 		// destination is the i-th result
 		resOK := false
 		for _, r := range rets {
@@ -375,7 +499,7 @@ func c17RequestLayout(c *Ctx) {
 				}
 			}
 		}
-		rd := strip(arg(call, 0))
+		rd := strip(op.stream)
 		if reader == nil {
 			reader = rd
 			if nr, ok := rd.(*ssa.Call); !ok || calleeName(nr) != "bytes.NewReader" || arg(nr, 0) != ssa.Value(fn.Params[1]) {
